@@ -54,6 +54,7 @@ def parseD (tok : String) : Option DOp :=
   match tok.splitOn ":" with
   | ["open"] => some .openOk
   | ["openbad"] => some .openFail
+  | ["self"] => some .openFail      -- dl(self) opened, used and destroyed inside the step: no lasting state
   | ["load", o] => do pure (.loadOk (← o.toNat?))
   | ["loadbad", o] => do pure (.loadFail (← o.toNat?))
   | ["copy", o] => do pure (.copy (← o.toNat?))
@@ -71,6 +72,7 @@ def dRes (s : DS) (tok : String) : String :=
   match tok.splitOn ":" with
   | ["open"] => "ok"
   | ["openbad"] => "raise"
+  | ["self"] => "ok"
   | ["load", o] => if alive o then "ok" else "skip"
   | ["loadbad", o] => if alive o then "raise" else "skip"
   | ["copy", o] => if alive o then "ok" else "skip"
